@@ -268,74 +268,116 @@ func definedOutside(v ssa.Value, li *loopInfo) bool {
 	return false
 }
 
-// inferInvariants runs the Houdini loop for one function; returns the kept
-// candidates per loop.
-func inferInvariants(P *Program, U *Universe, fn *ssa.Function, dir string, seed int) map[loopKey][]*Clause {
-	kept := map[loopKey][]*Clause{}
-	first := true
-	for round := 0; round < 8; round++ {
-		e := newEnc(P, U, fn)
-		e.houdini = true
-		e.keptInv = kept
-		e.firstRound = first
-		runEncoding(e, fn, nil)
-		if e.unsupported != "" {
-			if os.Getenv("GOVC_DEBUG") != "" {
-				fmt.Fprintf(os.Stderr, "houdini %s round %d: unsupported: %s\n", funcKey(fn), round, e.unsupported)
-			}
-			return map[loopKey][]*Clause{}
-		}
-		if first {
-			kept = e.candByLoop
-			e.keptInv = kept
-			first = false
-			// re-encode with all candidates assumed
-			continue
-		}
-		// solve only the obligations of inferred candidates
-		var obs []*Oblig
-		for _, o := range e.obligs {
-			if o.auto != nil {
-				obs = append(obs, o)
-			}
-		}
-		if os.Getenv("GOVC_DEBUG") != "" {
-			n := 0
-			for _, cs := range kept {
-				n += len(cs)
-			}
-			fmt.Fprintf(os.Stderr, "houdini %s round %d: %d kept candidates, %d obligations (%d total)\n", funcKey(fn), round, n, len(obs), len(e.obligs))
-		}
-		if len(obs) == 0 {
-			return kept
-		}
-		solveAll(obs, dir, 2, 16, seed, []int{0}, false)
-		dropped := 0
-		bad := map[*Clause]bool{}
-		for _, o := range obs {
-			if !o.ok() {
-				bad[o.auto] = true
-			}
-		}
-		for k, cs := range kept {
-			var nc []*Clause
-			for _, c := range cs {
-				if bad[c] {
-					dropped++
-					continue
-				}
-				nc = append(nc, c)
-			}
-			kept[k] = nc
-		}
-		if os.Getenv("GOVC_DEBUG") != "" {
-			fmt.Fprintf(os.Stderr, "houdini %s round %d: %d candidates checked, %d dropped\n", funcKey(fn), round, len(obs), dropped)
-		}
-		if dropped == 0 {
-			return kept
+// inferAll runs the Houdini loop for many functions at once, so that the
+// candidate checks of one round are solved together in parallel.
+func inferAll(P *Program, U *Universe, fns []*ssa.Function, dir string, seed int) map[*ssa.Function]map[loopKey][]*Clause {
+	type st struct {
+		kept  map[loopKey][]*Clause
+		first bool
+		done  bool
+	}
+	states := map[*ssa.Function]*st{}
+	var active []*ssa.Function
+	for _, fn := range fns {
+		if hasLoops(P, fn, 0, map[*ssa.Function]bool{}) {
+			states[fn] = &st{kept: map[loopKey][]*Clause{}, first: true}
+			active = append(active, fn)
 		}
 	}
-	return map[loopKey][]*Clause{}
+	debug := os.Getenv("GOVC_DEBUG") != ""
+	for round := 0; round < 8 && len(active) > 0; round++ {
+		var obs []*Oblig
+		owner := map[*Oblig]*ssa.Function{}
+		for _, fn := range active {
+			s := states[fn]
+			e := newEnc(P, U, fn)
+			e.houdini = true
+			e.keptInv = s.kept
+			e.firstRound = s.first
+			runEncoding(e, fn, nil)
+			if e.unsupported != "" {
+				s.kept = map[loopKey][]*Clause{}
+				s.done = true
+				continue
+			}
+			if s.first {
+				s.kept = e.candByLoop
+				if s.kept == nil {
+					s.kept = map[loopKey][]*Clause{}
+				}
+				s.first = false
+				n := 0
+				for _, cs := range s.kept {
+					n += len(cs)
+				}
+				if n == 0 {
+					s.done = true
+				}
+				continue
+			}
+			cnt := 0
+			for _, o := range e.obligs {
+				if o.auto != nil {
+					obs = append(obs, o)
+					owner[o] = fn
+					cnt++
+				}
+			}
+			if cnt == 0 {
+				s.done = true
+			}
+		}
+		if len(obs) > 0 {
+			solveAll(obs, dir, 2, 16, seed, []int{0}, false)
+			bad := map[*Clause]bool{}
+			touched := map[*ssa.Function]bool{}
+			for _, o := range obs {
+				if !o.ok() {
+					bad[o.auto] = true
+					touched[owner[o]] = true
+				}
+			}
+			for _, fn := range active {
+				s := states[fn]
+				if s.done || s.first {
+					continue
+				}
+				if !touched[fn] {
+					s.done = true
+					continue
+				}
+				for k, cs := range s.kept {
+					var nc []*Clause
+					for _, c := range cs {
+						if !bad[c] {
+							nc = append(nc, c)
+						}
+					}
+					s.kept[k] = nc
+				}
+			}
+			if debug {
+				fmt.Fprintf(os.Stderr, "houdini round %d: %d functions, %d candidate obligations, %d clauses dropped\n", round, len(active), len(obs), len(bad))
+			}
+		}
+		var next []*ssa.Function
+		for _, fn := range active {
+			if !states[fn].done {
+				next = append(next, fn)
+			}
+		}
+		active = next
+	}
+	out := map[*ssa.Function]map[loopKey][]*Clause{}
+	for fn, s := range states {
+		if !s.done {
+			// did not converge: keep nothing (sound: fewer assumed invariants)
+			out[fn] = map[loopKey][]*Clause{}
+			continue
+		}
+		out[fn] = s.kept
+	}
+	return out
 }
 
 func phiName(p *ssa.Phi) string {
